@@ -137,7 +137,12 @@ fn gen_case(i: usize, rng: &mut Rng) -> (ConnCase, String) {
             for k in 0..n {
                 let q = *rng.pick(&["NaN", "nan", "inf", "-inf", "1e3", "0.5", "0", "1", "", "x", "-NaN", "1e-400", "340282350000000000000000000000000000000"]);
                 let name = *rng.pick(&["chunked", "identity", "gzip", "trailers"]);
-                te.push_str(&format!("{}{};q={}", if k > 0 { ", " } else { "" }, name, q));
+                // parameters of every shape, also empty and one-character ones
+                match rng.below(6) {
+                    0 => te.push_str(&format!("{}{};", if k > 0 { ", " } else { "" }, name)),
+                    1 => te.push_str(&format!("{}{}; {}", if k > 0 { ", " } else { "" }, name, *rng.pick(&["", "x", "q", "Q=1", "q =1"]))),
+                    _ => te.push_str(&format!("{}{};q={}", if k > 0 { ", " } else { "" }, name, q)),
+                }
             }
             bytes.extend_from_slice(format!("GET /te HTTP/1.1\r\nTE: {}\r\n\r\n", te).as_bytes());
             tag = format!("te{}", n);
@@ -166,7 +171,8 @@ fn gen_case(i: usize, rng: &mut Rng) -> (ConnCase, String) {
         }
         10 => {
             // Expect / Connection / version corner cases with odd bytes
-            let v = *rng.pick(&["Expect: 100-continue\r\nContent-Length: 5\r\n\r\nhello", "Connection: upgrade\r\n\r\n\u{0}\u{1}raw", "Expect: \u{7f}\r\n\r\n", "Content-Length: 5\r\nContent-Length: 6\r\n\r\nhello!", ": empty-name\r\n\r\n"]);
+            let v = *rng.pick(&["Expect: 100-continue\r\nContent-Length: 5\r\n\r\nhello", "Connection: upgrade\r\n\r\n\u{0}\u{1}raw", "Expect: \u{7f}\r\n\r\n", "Content-Length: 5\r\nContent-Length: 6\r\n\r\nhello!", ": empty-name\r\n\r\n",
+                                " Host: folded-first\r\n\r\n", "\t\r\nHost: x\r\n\r\n", " \r\n\r\n"]);
             bytes.extend_from_slice(format!("POST /x HTTP/1.1\r\n{}", v).as_bytes());
             blen = 5;
             tag = "corner".into();
